@@ -26,6 +26,7 @@ WIRE["HeadersMacro"] = WIRE["Headers"]
 WIRE["Echo"] = ("echo", {"pe": ("path", 2), "qe": ("query", "qe"), "qo": ("query", "qo"), "ql": ("query", "ql"), "he": ("header", "x-he"),
                          "ho": ("header", "x-ho"), "pq": ("query", "pq"), "po": ("query", "po"), "pl": ("query", "pl"),
                          "ph": ("header", "x-ph"), "pho": ("header", "x-pho")})
+WIRE["Ids"] = ("idsPath", {"ids": ("path", 2)})
 WIRE["Regex"] = ("regexPath", {"n": ("path", 2)})
 WIRE["Attrs"] = ("attrs", {"b": ("path", 2), "bee": ("path", 3), "sea": ("path", 4), "pq": ("query", "q1"), "hh": ("header", "x-h1")})
 
@@ -57,6 +58,8 @@ def base_args(ep, salt):
         return d
     if ep == "Regex":
         return {"n": 470000 + salt % 1000}
+    if ep == "Ids":
+        return {"ids": 480000 + salt % 1000}
     if ep == "Attrs":
         d = {n: "ok:" + mk(n) for n in ("b", "bee", "pq", "hh")}
         d["sea"] = 660000 + salt % 1000
@@ -108,6 +111,10 @@ def mutations(ep, adesc, outcome, args, salt):
     if kind == "path":
         if outcome == "multi":
             return [{"op": "set_path_segments", "index": wname, "values": [str(12 + salt % 50), str(34 + salt % 7)]}], None
+        if adesc.get("card") == "many":
+            # one element of the list cannot be parsed: a bad segment, or a segment whose DECODED text contains a slash
+            vals = [["1", bad + "-notanumber", "3"], ["1", "2%2F3"], ["7%2F8"]][salt % 3]
+            return [{"op": "set_path_segments", "index": wname, "values": vals, "raw": True}], (bad if salt % 3 == 0 else None)
         return [{"op": "set_path", "index": wname, "value": bad + "-notanumber"}], bad
     if kind in ("auth", "cookie"):
         hname = "authorization" if kind == "auth" else "cookie"
@@ -149,7 +156,7 @@ def build_case(cid, c, salt, client, server, extra=None):
 
 
 def flavours(ep, k):
-    if ep in ("Echo", "Attrs"):
+    if ep in ("Echo", "Attrs", "Ids"):
         return [("macro-blocking", "macro-blocking"), ("macro-async", "macro-async"), ("macro-blocking", "macro-async"), ("macro-async", "macro-blocking")][k % 4]
     if ep in ("NamesMacro", "HeadersMacro"):
         return [("gen-blocking", "macro-blocking"), ("gen-async", "macro-async"), ("macro-blocking", "macro-async"), ("macro-async", "macro-blocking")][k % 4]
@@ -162,7 +169,7 @@ def flavours(ep, k):
 def run_model(pid, tier):
     """TLC over all endpoint configs; returns (cases, states, transitions, runs, coverage)"""
     cases, states, transitions, runs, cov = [], 0, 0, [], {}
-    for ep in ("SafeMix", "Names", "NamesMacro", "Headers", "HeadersMacro", "Echo", "Attrs", "Regex", "Query", "AuthCookie", "OptBody", "SafeBody"):
+    for ep in ("SafeMix", "Names", "NamesMacro", "Headers", "HeadersMacro", "Echo", "Attrs", "Regex", "Ids", "Query", "AuthCookie", "OptBody", "SafeBody"):
         r = vc.tlc(pid, "MCEndpoint", "MCEndpoint_%s%s.cfg" % (ep, "_t" if tier == "thorough" else ""), workers=4 if tier == "quick" else 12, timeout_s=3000)
         if r.error:
             raise vc.ToolError("MCEndpoint_%s: %s" % (ep, r.error))
